@@ -48,17 +48,32 @@ pub struct ScriptMath<F: CpuLogpFunc> {
     pub momentum_queue: VecDeque<Vec<f64>>,
     pub fixed_momentum: Option<Vec<f64>>,
     pub log: MathLog,
+    /// track the relative magnitude of the U-turn products (costs a few vector copies per test)
+    pub track_turns: bool,
+    /// a clone of the density (for `Logged` it shares the evaluation log)
+    pub dens: F,
 }
 
-impl<F: CpuLogpFunc> ScriptMath<F> {
+impl<F: CpuLogpFunc + Clone> ScriptMath<F> {
     pub fn new(f: F) -> Self {
         ScriptMath {
+            dens: f.clone(),
             inner: CpuMath::new(f),
             momentum_queue: VecDeque::new(),
             fixed_momentum: None,
             log: MathLog { min_abs_turn: f64::INFINITY, ..Default::default() },
+            track_turns: false,
         }
     }
+}
+
+impl ScriptMath<crate::dens::Logged> {
+    pub fn inner_evals(&self) -> u64 {
+        self.dens.evals()
+    }
+}
+
+impl<F: CpuLogpFunc> ScriptMath<F> {
     pub fn recording(mut self) -> Self {
         self.log.record = true;
         self
@@ -153,6 +168,9 @@ where
     fn scalar_prods3(&mut self, a: &V<F>, b: &V<F>, c: &V<F>, x: &V<F>, y: &V<F>) -> (f64, f64) {
         let r = self.inner.scalar_prods3(a, b, c, x, y);
         self.log.n_turn += 1;
+        if !self.track_turns && !self.log.record {
+            return r;
+        }
         // relative magnitude of the turn products (for "numerically degenerate" detection)
         let av = self.vec(a);
         let bv = self.vec(b);
